@@ -196,9 +196,9 @@ def build(tier, mutate=None, seed=0):
     elif tier == "quick":
         plan = [(nm, ms, 2) for nm, ms in core] + [(nm, ms, 1) for nm, ms in random_templates(rng, 12, 220)]
     else:
-        plan = ([(nm, ms, 2) for nm, ms in core] + [(nm, ms, 2) for nm, ms in random_templates(rng, 40, 250)]
+        plan = ([(nm, ms, 2) for nm, ms in core] + [(nm, ms, 2) for nm, ms in random_templates(rng, 100, 300)]
                 + [(nm + "/k3", ms, 3) for nm, ms in core if len(render(ms)[0]) <= 120]
-                + [(nm + "/k3", ms, 3) for nm, ms in random_templates(random.Random(5000 + seed), 8, 100)])
+                + [(nm + "/k3", ms, 3) for nm, ms in random_templates(random.Random(5000 + seed), 16, 110)])
     for nm, ms, K in plan:
         stream, exp = render(ms)
         units.append(Unit("seg/%s/cuts=%d" % (nm, K), seg_unit(C, ms, K), seg_unit(real_conn, ms, K), split=(K >= 2),
@@ -211,7 +211,7 @@ CANARIES = [
     ("chunk put-back drops CRLF", {HTTP: lambda s: s.replace('self._raw_response = line + b"\\r\\n" + self._raw_response', "self._raw_response = line + self._raw_response")}, None),
     ("leftover not returned", {HTTP: lambda s: s.replace("            return self._raw_response\n\n        return bytearray()", "            return bytearray()\n\n        return bytearray()")}, None),
     ("chunk terminator check off by one", {HTTP: lambda s: s.replace("if length + 2 > len(self._raw_response):", "if length + 1 > len(self._raw_response):")}, None),
-    ("fresh response not created", {CONN: lambda s: s.replace("                self.current_response = HttpResponse()\n\n    def eof_received", "                pass\n\n    def eof_received")}, None),
+    ("event consumed as a response", {CONN: lambda s: s.replace('                if http_name == "http":', '                if http_name in ("http", "event"):')}, None),
 ]
 
 ASSUMPTIONS = [
